@@ -671,7 +671,8 @@ func init() {
 		Prop:  "C15",
 		Level: "exploration",
 		Profiles: []sim.Profile{
-			{Name: "random-programs", Weight: 1, Fn: c15Random},
+			{Name: "random-programs", Weight: 3, Fn: c15Random},
+			{Name: "random-programs-atomics", Weight: 1, Fn: withAtomicYields(c15Random)},
 			{Name: "exhaustive-depth2", Prologue: true, Fn: c15Exhaustive},
 		},
 		Components: map[string][]string{
